@@ -129,6 +129,7 @@ class Ctx:
     def __init__(self, fn, counter=None):
         self.fn = fn
         self.env = {}
+        self.consts = {}
         self.known = {}      # (key, dict) -> name of the value found by an enclosing membership test
         self.binds = []
         self.counter = counter if counter is not None else [0]
@@ -139,6 +140,7 @@ class Ctx:
         c = Ctx(self.fn, self.counter)
         c.env = dict(self.env)
         c.known = dict(self.known)
+        c.consts = self.consts
         return c
 
     def fresh(self, p='t'):
@@ -202,6 +204,8 @@ def tr_expr(e, ctx):
     w = ctx.where
     if isinstance(e, ast.Name):
         if e.id not in ctx.env:
+            if e.id in ctx.consts:       # a module-level name bound exactly once to a literal = that literal
+                return tr_expr(ctx.consts[e.id], ctx)
             die(w, e, 'unknown name')
         return ctx.env[e.id]
     if isinstance(e, ast.Constant):
@@ -541,8 +545,24 @@ def find_helper_call(node, helpers):
     return None
 
 
+def stored_names(stmts):
+    out = set()
+    for st in stmts:
+        for n in ast.walk(st):
+            if isinstance(n, ast.Name) and isinstance(n.ctx, ast.Store):
+                out.add(n.id)
+            if isinstance(n, ast.MatchAs) and n.name:
+                out.add(n.name)
+    return out
+
+
 def inline_helpers(stmts, helpers, where, counter):
-    """replace `... = Cls._helper(args)` by the helper's statements (locals renamed apart) and its returned expression"""
+    """Replace a call of a private helper of the same class by the helper's statements.
+    `T = h(args)` / `x.append(h(args))` / expression statement: the helper must be straight-line code with one final
+    return (its value replaces the call).  `return h(args)` (tail call): ANY body -- its returns are the caller's.
+    Parameters whose argument is a plain variable are that variable (no copy: a mutated object stays shared); the
+    helper must not assign to them.  `self` of a non-static helper is the caller's `self`.  Locals are renamed apart."""
+    import copy
     out = []
     for s in stmts:
         for field in ('body', 'orelse'):
@@ -553,7 +573,6 @@ def inline_helpers(stmts, helpers, where, counter):
                 c.body = inline_helpers(c.body, helpers, where, counter)
         call = find_helper_call(s, helpers)
         if call is None:
-            # a helper call anywhere else is not understood
             for n in ast.walk(s):
                 if isinstance(n, ast.Call) and isinstance(n.func, ast.Attribute) and isinstance(n.func.value, ast.Name) \
                         and (n.func.value.id, n.func.attr) in helpers and not isinstance(s, (ast.For, ast.If, ast.Match)):
@@ -561,27 +580,53 @@ def inline_helpers(stmts, helpers, where, counter):
             out.append(s)
             continue
         h = helpers[(call.func.value.id, call.func.attr)]
-        if call.keywords or len(call.args) != len(h.args.args) or h.args.vararg or h.args.kwarg or h.args.defaults:
+        hparams = list(h.args.args)
+        if call.func.value.id == 'self':
+            if not hparams or hparams[0].arg != 'self':
+                die(where, call, 'helper called on self has no self parameter')
+            hparams = hparams[1:]
+        if call.keywords or len(call.args) != len(hparams) or h.args.vararg or h.args.kwarg or h.args.defaults or h.args.kwonlyargs:
             die(where, call, 'helper call shape')
         body = [st for st in h.body if not (isinstance(st, ast.Expr) and isinstance(st.value, ast.Constant))]
-        if not body or not isinstance(body[-1], ast.Return) or body[-1].value is None \
-                or any(isinstance(n, (ast.Return, ast.For, ast.While, ast.If, ast.Match, ast.Try, ast.With)) for st in body[:-1] for n in ast.walk(st)):
-            die(where, h, 'helper is not straight-line code with one final return')
+        tail = isinstance(s, ast.Return) and s.value is call
+        if not tail and (not body or not isinstance(body[-1], ast.Return) or body[-1].value is None
+                         or any(isinstance(n, (ast.Return, ast.For, ast.While, ast.If, ast.Match, ast.Try, ast.With))
+                                for st in body[:-1] for n in ast.walk(st))):
+            die(where, h, 'helper used for its value is not straight-line code with one final return')
+        if any(isinstance(n, (ast.Global, ast.Nonlocal, ast.Lambda, ast.FunctionDef, ast.Yield, ast.YieldFrom)) for st in body for n in ast.walk(st)):
+            die(where, h, 'helper body outside the subset')
         counter[0] += 1
         pre = f'h{counter[0]}_'
-        names = {a.arg for a in h.args.args}
-        for st in body:
-            for n in ast.walk(st):
-                if isinstance(n, ast.Name) and isinstance(n.ctx, ast.Store):
-                    names.add(n.id)
-        names.discard('_')
-        ren = Renamer({n: pre + n for n in names})
-        import copy
-        for p, a in zip(h.args.args, call.args):
-            out.append(ast.copy_location(ast.Assign(targets=[ast.Name(id=pre + p.arg, ctx=ast.Store())], value=a), s))
+        stored = stored_names(body)
+        ren = {}
+        for p_, a in zip(hparams, call.args):
+            if isinstance(a, ast.Name):
+                if p_.arg in stored:
+                    die(where, h, f'helper assigns to its parameter {p_.arg}')
+                ren[p_.arg] = a.id                       # the parameter IS the caller's variable
+            else:
+                ren[p_.arg] = pre + p_.arg
+                out.append(ast.copy_location(ast.Assign(targets=[ast.Name(id=pre + p_.arg, ctx=ast.Store())], value=a), s))
+        for n in stored:
+            if n != '_' and n not in ren:
+                ren[n] = pre + n
+        ren.pop('self', None)
+
+        class Ren(ast.NodeTransformer):
+            def visit_Name(self, n):
+                return ast.copy_location(ast.Name(id=ren.get(n.id, n.id), ctx=n.ctx), n)
+
+            def visit_MatchAs(self, n):
+                self.generic_visit(n)
+                if n.name:
+                    n.name = ren.get(n.name, n.name)
+                return n
+        if tail:
+            out.extend(ast.fix_missing_locations(Ren().visit(copy.deepcopy(st))) for st in body)
+            continue
         for st in body[:-1]:
-            out.append(ast.fix_missing_locations(ren.visit(copy.deepcopy(st))))
-        ret = ren.visit(copy.deepcopy(body[-1].value))
+            out.append(ast.fix_missing_locations(Ren().visit(copy.deepcopy(st))))
+        ret = Ren().visit(copy.deepcopy(body[-1].value))
 
         class Repl(ast.NodeTransformer):
             def visit_Call(self, n):
@@ -941,6 +986,27 @@ def tr_match(s, ctx, cont):
 
 # ------------------------------------------------------------------------------------------------ driver
 
+def module_consts(tree):
+    """module-level names bound exactly once, to a str/int literal, and never assigned anywhere else in the module"""
+    cands, count = {}, {}
+    for n in ast.walk(tree):
+        if isinstance(n, ast.Name) and isinstance(n.ctx, (ast.Store, ast.Del)):
+            count[n.id] = count.get(n.id, 0) + 1
+        if isinstance(n, (ast.Global, ast.Nonlocal)):
+            for x in n.names:
+                count[x] = count.get(x, 0) + 2
+    for st in tree.body:
+        tgt = val = None
+        if isinstance(st, ast.Assign) and len(st.targets) == 1:
+            tgt, val = st.targets[0], st.value
+        elif isinstance(st, ast.AnnAssign) and st.value is not None:
+            tgt, val = st.target, st.value
+        if isinstance(tgt, ast.Name) and isinstance(val, ast.Constant) and isinstance(val.value, (str, int)) \
+                and not isinstance(val.value, bool):
+            cands[tgt.id] = val
+    return {k: v_ for k, v_ in cands.items() if count.get(k, 0) == 1}
+
+
 def find_class(tree, cls):
     for n in tree.body:
         if isinstance(n, ast.ClassDef) and n.name == cls:
@@ -976,17 +1042,29 @@ def generate(repo):
         # private static helpers of the same class that are not translated themselves: inlined at their call sites
         helpers = {}
         for x in cls.body:
-            if isinstance(x, ast.FunctionDef) and x.name.startswith('_') and not x.name.startswith('__') and x.name not in BYNAME \
-                    and any(dotted(d) == 'staticmethod' for d in x.decorator_list):
-                helpers[(f.cls, x.name)] = x
+            if isinstance(x, ast.FunctionDef) and x.name.startswith('_') and not x.name.startswith('__') and x.name not in BYNAME:
+                decos = [dotted(d) for d in x.decorator_list]
+                if decos == ['staticmethod']:
+                    helpers[(f.cls, x.name)] = x
+                elif not decos:
+                    helpers[('self', x.name)] = x
         import copy
         counter = [0]
-        stmts = desugar(inline_helpers(copy.deepcopy(m.body), helpers, f'{f.cls}.{f.name}', counter), counter)
+        stmts = copy.deepcopy(m.body)
+        for _round in range(6):                   # helpers may call helpers
+            before = ast.dump(ast.Module(body=stmts, type_ignores=[]))
+            stmts = inline_helpers(stmts, helpers, f'{f.cls}.{f.name}', counter)
+            if ast.dump(ast.Module(body=stmts, type_ignores=[])) == before:
+                break
+        else:
+            die(f'{f.cls}.{f.name}', m, 'helper inlining does not terminate (recursive helper)')
+        stmts = desugar(stmts, counter)
         for st in ast.walk(ast.Module(body=stmts, type_ignores=[])):
             if isinstance(st, ast.Assign) and isinstance(st.targets[0], ast.Subscript) and isinstance(st.targets[0].value, ast.Name) \
                     and st.targets[0].value.id.startswith('dc'):
                 st._key_first = True
         ctx = Ctx(f)
+        ctx.consts = module_consts(trees[f.file])
         plist = f.extra + f.params
         if f.name == 'convert_substitutions':
             plist = f.params
